@@ -8,7 +8,7 @@
 (*     document: the statement only requires "a non-nil error");            *)
 (*   - a syntax error's line and column lie inside the input;               *)
 (*   - the deterministic work counters of hook H1 are linear in the number  *)
-(*     of tokens: lexer calls <= next() calls + 1 <= tokens + 2, where      *)
+(*     of tokens: lexer calls <= next() calls + 4, next() calls <= tokens + 4 (a bounded look-ahead), where      *)
 (*     tokens is the specification's own count (LexAll) when the input is   *)
 (*     small and the count known by construction otherwise;                 *)
 (*   - the lexer loop emitted at most one token per character, in order,    *)
@@ -25,8 +25,8 @@ OutBad(c, o, N) ==
   ELSE IF o[3] = 1 /\ o[4] = 1 /\ ~InsideInput(c.in, o[7], o[8])
        THEN "error position outside the input: line " \o ToString(o[7]) \o " column " \o ToString(o[8])
   ELSE IF o[3] = 1 /\ o[5] = 1 /\ o[4] = 0 THEN "syntax error without a location"
-  ELSE IF o[6] = 1 /\ o[9] > o[10] + 1 THEN "more lexer calls than tokens consumed + 1"
-  ELSE IF o[6] = 1 /\ o[10] > N + 1 THEN "more tokens consumed than the input has"
+  ELSE IF o[6] = 1 /\ o[9] > o[10] + 4 THEN "more lexer calls than tokens consumed + 4 (look-ahead bound)"
+  ELSE IF o[6] = 1 /\ o[10] > N + 4 THEN "more tokens consumed than the input has"
   ELSE ""
 
 Verdict(c) ==
